@@ -460,6 +460,24 @@ def law_entry_points(run, rng, a, b, v, engine, case) -> None:
     mab = mmul(ma, mb)
     h = horiz(mab)
     same('Angle.transform() block', model_matrix(ang.pitch, ang.yaw, ang.roll), mab, 1e-9 if h > 0.001 else 2 * h + 1e-9)
+    # history: one Angle object used as a rotation, changed in place (every way there is), used again: each use is the
+    # rotation the object denotes NOW (nothing derived from an earlier state may be kept)
+    live = Angle(*a)
+    steps = [('first use', lambda: None), ('@= Angle', lambda: live.__imatmul__(Angle(*b))), ('yaw +=', lambda: setattr(live, 'yaw', live.yaw + 33.5)),
+             ('*= 0.5', lambda: live.__imul__(0.5)), ('[0] =', lambda: live.__setitem__(0, 12.25)),
+             ('transform()', lambda: _with_transform(live, Matrix.from_roll(40.0))), ('@= Matrix', lambda: live.__imatmul__(Matrix.from_angle(*b)))]
+    for label, change in steps:
+        res_change = change()
+        now = model_matrix(live.pitch, live.yaw, live.roll)
+        w2 = Vec(*v) @ live
+        same(f'v @ (Angle after {label})', [[w2.x, w2.y, w2.z]], [list(vmul(v, now))], 4e-12 * vmag + 1e-15, key='stale-rotation-after-in-place-change')
+        same(f'Matrix.from_angle(Angle after {label})', mat_entries(Matrix.from_angle(live)), now, 1e-12, key='stale-rotation-after-in-place-change')
+    run.count('angles_reused_after_in_place_changes')
+
+
+def _with_transform(ang, m) -> None:
+    with ang.transform() as mat:
+        mat @= m
 
 
 def law_constructions(run, rng, engine, case_id) -> None:
@@ -636,7 +654,7 @@ def main(run, shard=(0, 1)) -> None:
     probe.check_reached(run)
     if shard[0] == 0:
         native_engine(run)
-    run.require('self_aliased_products', 'results_edited_in_place', 'entry_point_evaluations', 'conversion_laws_on_products_and_copies', 'assoc_through_gimbal', 'near_twin_evaluations', 'reflected_direct_calls', 'from_angle_checked', 'to_angle_roundtrips', 'to_angle_gimbal_branch', 'operand_combos', 'assoc_checked',
+    run.require('self_aliased_products', 'results_edited_in_place', 'entry_point_evaluations', 'conversion_laws_on_products_and_copies', 'angles_reused_after_in_place_changes', 'assoc_through_gimbal', 'near_twin_evaluations', 'reflected_direct_calls', 'from_angle_checked', 'to_angle_roundtrips', 'to_angle_gimbal_branch', 'operand_combos', 'assoc_checked',
                 'inverse_checked', 'constructed_rotations')
 
 
